@@ -21,6 +21,7 @@ OBLIGATIONS = [
     "Pkgcore.C33.basename_install_placement",
     "Pkgcore.C33.directory_needs_recursive",
     "Pkgcore.C33.recursive_install_mirrors_tree",
+    "Pkgcore.C33.dohtml_recursive_mirrors_filtered_tree",
     "Pkgcore.C33.recursive_dir_level",
     "Pkgcore.C33.doman_placement",
     "Pkgcore.C33.doman_without_section_rejected",
@@ -30,6 +31,7 @@ OBLIGATIONS = [
     "Pkgcore.C33.dosym_placement",
     "Pkgcore.C33.dosym_rejections",
     "Pkgcore.C33.dohard_placement",
+    "Pkgcore.C33.dohard_trailing_slash_rejected",
 ]
 TRUSTED = [
     "shlex/argparse parsing of --dest/--insoptions/--diroptions and of -r/-i18n= is not modelled (the model starts from the parsed values); "
@@ -63,12 +65,13 @@ RULE = ("random source trees (files, nested directories, symlinks to files/direc
 LEVEL_TEXT = ("Kernel-checked Lean 4 theorems about a model of the helpers in two layers (what each helper asks of the file system; what those "
               "operations do to an abstract image): the relative dosym target computed by get_relative_dosym_target resolves to the requested "
               "absolute path for all strings; nothing outside the requested paths and their ancestors changes, ancestors are directories, the last "
-              "entry written is the prescribed one; per-helper placement (basename installs, recursive trees, doman section/language rules, domo, "
+              "entry written is the prescribed one; per-helper placement (basename installs, recursive trees, dohtml's argument filters and doc prefix, doman section/language rules, domo, "
               "dodir/keepdir, dosym/dohard) equals an independently written PMS table and the PMS rejections are exactly the rejected requests. "
               "The model is tied to the code by running the real helper classes (through IpcCommand.__call__, with the whole helper table "
               "instantiated as ebd does, under a random umask) on scratch images and comparing image snapshots with the model and with the spec.")
 LEVEL_NOTE = ("Partial: timestamps exist only on the real file system; modes and ownership are modelled and compared in the sampled runs (as root); "
-              "argument/option parsing and the bash helper scripts are covered by the sampled correspondence only.")
+              "argument/option parsing and the bash helper scripts are covered by the sampled correspondence only; for recursive installs, dohtml and "
+              "dohard with a link name ending in a slash the rejections are proved to coincide (reject iff reject), not their reasons.")
 
 EAPIS = ["0", "1", "2", "3", "4", "5", "6", "7", "8"]
 HELPER_CLASSES = [  # order of construction in ebd.py
@@ -1020,6 +1023,10 @@ SEQ_CORPUS = [
     [_mk("basename", "dobin", "/usr/bin", lambda t: (_files(t, 1), _tg(t, _files(t, 1)))),
      _mk("dohard", "dohard", "/", lambda t: (["/usr/bin/" + _files(t, 1)[0], "/usr/bin/hl"],
                                                 {"source": "/usr/bin/" + _files(t, 1)[0], "target": "/usr/bin/hl"}), options="")],
+    # dohard with a link name ending in a slash: no up-front test in the code, the request fails when os.link meets the directory
+    [_mk("basename", "dobin", "/usr/bin", lambda t: (_files(t, 1), _tg(t, _files(t, 1)))),
+     _mk("dohard", "dohard", "/", lambda t: (["/usr/bin/" + _files(t, 1)[0], "/usr/bin/dd/"],
+                                                {"source": "/usr/bin/" + _files(t, 1)[0], "target": "/usr/bin/dd/"}), options="")],
     # the same hard link requested twice, and a link name re-pointed through a third name
     [_mk("basename", "dobin", "/usr/bin", lambda t: (_files(t, 2), _tg(t, _files(t, 2)))),
      _mk("dohard", "dohard", "/", lambda t: (["/usr/bin/" + _files(t, 1)[0], "/usr/bin/hl"],
